@@ -9,7 +9,7 @@ and per-execution goroutines of quartz/scheduler.go). Every theorem quantifies o
 user's calls (`start`, `stop`, `cancel g`) with the internal steps of all goroutines of all generations.
 `Cfg.std n` is the code as it is (generation guard in the watcher, Start completes a pending stop, IsStarted looks
 at the run's context); `C10_facts` ties these three switches and the goroutine accounting to the source.
-The two `…_fails` / `…_unrepaired` theorems are negative controls: they prove that without the guard / without the
+The `…_fails` / `…_unrepaired` / `…_hazard` theorems are negative controls: they prove that without the guard / without the
 pre-stop the property is false, i.e. that the theorems really depend on those pieces of code.
 -/
 namespace Lifecycle
@@ -23,23 +23,26 @@ def cfgOfFacts (n : Nat) : Cfg :=
     prestop := Generated.Lifecycle.startPrestop && Generated.Lifecycle.startEarlyReturn,
     ctxAware := Generated.Lifecycle.isStartedCtxAware }
 
-/-- The source has the shape the model transcribes: every `go` statement of package quartz is accounted for in the
-    WaitGroup (`wg.Add(1)` right before, `defer wg.Done()` first) except Wait's own helper, which leaves when the
-    counter reaches zero; there are no other `wg.Add` / `wg.Done` calls; the watcher calls `stopRun` with the
-    captured generation and `stopRun` compares it with `sched.run`; `Start` completes a pending stop, returns early
-    when started, and has exactly the modelled statement list; `stop` returns early when not started, cancels and
-    clears the flag; `started` is written nowhere else; `IsStarted` consults the run's context; the loop leaves on
-    `ctx.Done()`; jobs receive the run's context. -/
+/-- The source has the shape the model transcribes: every `go` statement of package quartz (there are four: watcher
+    and loop in `Start`, the workers, the per-execution goroutine) is accounted for in the counter (`wg.Add(1)` right
+    before, `defer wg.Done()` first); `Wait` creates no goroutine and writes nothing — it is exactly
+    `select { case <-ctx.Done(): case <-sched.wg.zero(): }`; there are no other uses of `sched.wg`; the counter's
+    `Add` makes a fresh `done` channel when it leaves zero and closes it when it returns to zero, `zero()` answers
+    a closed channel iff `n = 0`; the watcher calls `stopRun` with the captured generation and `stopRun` compares it
+    with `sched.run`; `Start` completes a pending stop, returns early when started, and has exactly the modelled
+    statement list; `stop` returns early when not started, cancels and clears the flag; `started` is written nowhere
+    else; `IsStarted` consults the run's context; the loop leaves on `ctx.Done()`; jobs receive the run's context. -/
 theorem C10_facts :
     (∀ n, cfgOfFacts n = Cfg.std n) ∧
-    Generated.Lifecycle.goSites = [(0, 0), (0, 0), (3, 1), (1, 0), (2, 0)] ∧
-    Generated.Lifecycle.wgCalls = [4, 4, 4, 4] ∧
+    Generated.Lifecycle.goSites = [(0, 0), (0, 0), (1, 0), (2, 0)] ∧
+    Generated.Lifecycle.wgCalls = [4, 4, 4, 4, 1, 0] ∧
+    Generated.Lifecycle.counterShape = true ∧
     Generated.Lifecycle.startShape = true ∧ Generated.Lifecycle.stopLocked = true ∧
     Generated.Lifecycle.stopShape = true ∧ Generated.Lifecycle.waitShape = true ∧
     Generated.Lifecycle.loopExitsOnDone = true ∧ Generated.Lifecycle.jobsGetRunCtx = true ∧
     Generated.Lifecycle.startedWritesStd = true := by
   refine ⟨fun n => ?_, by decide, by decide, by decide, by decide, by decide, by decide, by decide, by decide,
-    by decide⟩
+    by decide, by decide⟩
   simp [cfgOfFacts, Cfg.std, Generated.Lifecycle.watcherCallsStopRun, Generated.Lifecycle.stopRunGuard,
     Generated.Lifecycle.startPrestop, Generated.Lifecycle.startEarlyReturn, Generated.Lifecycle.isStartedCtxAware]
 
@@ -217,11 +220,11 @@ theorem C10_cancel_start_race_unrepaired :
 
 /-! ## Wait -/
 
-/-- In every reachable state the WaitGroup counter is exactly the number of live counted goroutines of all
-    generations. Hence when it is zero — which is when `Wait` returns — no watcher, loop, worker or per-execution
-    goroutine of any generation is alive, the scheduler is stopped, and no internal step is enabled at all: no job
-    execution is in progress and none will start until the user calls `Start` again. (Fact: these four kinds are all
-    the goroutines the package creates, `C10_facts`.) Holds for every variant. -/
+/-- In every reachable state the counter is exactly the number of live counted goroutines of all generations.
+    Hence when it is zero no watcher, loop, worker or per-execution goroutine of any generation is alive, the scheduler
+    is stopped, and no internal step is enabled at all: no job execution is in progress and none will start until the
+    user calls `Start` again. (Fact: these four kinds are ALL the goroutines the package creates — `Wait` itself creates
+    none, `C10_facts`.) Holds for every variant. -/
 theorem C10_wait_sound (cfg : Cfg) (s : St) (hr : Reach cfg s) :
     s.wg = live s ∧
     (s.wg = 0 →
@@ -231,17 +234,10 @@ theorem C10_wait_sound (cfg : Cfg) (s : St) (hr : Reach cfg s) :
   have hi := inv_reach cfg s hr
   refine ⟨hi.wg_live, ?_⟩
   intro h0
-  have hl : liveL s.gens = 0 := by have := hi.wg_live; simp only [live] at this; omega
-  have hdead : ∀ g ∈ s.gens, g.watcher = .done ∧ g.loop = false ∧ g.workers = 0 ∧ g.jobs = 0 := by
-    intro g hg
-    have := liveL_eq_zero s.gens hl g hg
-    simp only [Gen.live] at this
-    refine ⟨?_, ?_, by omega, by omega⟩
-    · cases hw : g.watcher <;> simp [hw] at this ⊢
-    · cases hlp : g.loop <;> simp [hlp] at this ⊢
-  have hat : ∀ (i : Nat) (g : Gen), s.gens[i]? = some g → g.watcher = .done ∧ g.loop = false ∧ g.workers = 0 ∧ g.jobs = 0 :=
-    fun i g h => hdead g (List.mem_iff_getElem?.mpr ⟨i, h⟩)
-  refine ⟨hdead, ?_, ?_⟩
+  have hat := dead_of_wg_zero hi h0
+  refine ⟨fun g hg => ?_, ?_, no_internal_of_wg_zero cfg hi h0⟩
+  · obtain ⟨i, hi'⟩ := List.mem_iff_getElem?.mp hg
+    exact hat i g hi'
   · cases hst : s.started with
     | false => rfl
     | true =>
@@ -251,15 +247,110 @@ theorem C10_wait_sound (cfg : Cfg) (s : St) (hr : Reach cfg s) :
       obtain ⟨g, hg⟩ : ∃ g, s.gens[s.gens.length - 1]? = some g :=
         ⟨_, List.getElem?_eq_getElem (by omega)⟩
       exact hi.cur_watching g hg hst (hat _ g hg).1
-  · intro a ha
-    cases a <;> simp only [Act.isInternal] at ha <;> first | (cases ha; done) | skip
-    all_goals
-      simp only [step]
-      split
-      · rename_i g hg
-        obtain ⟨h1, h2, h3, h4⟩ := hat _ g hg
-        simp [h1, h2, h3, h4]
-      · rfl
+
+/-- When does `Wait` return because of the counter? A caller that enters `Wait` is released at once iff the counter
+    is zero at that moment; a blocked caller is released only when the `done` channel it holds is closed, and then
+    — provided no `Start` has taken effect since its call — the counter IS zero now: everything of every generation
+    has exited (`C10_wait_sound`). (If a `Start` did take effect in between, the counter was zero at some moment
+    after the call: the epoch the caller waited for has ended.) All interleavings, any number of callers. -/
+theorem C10_wait_returns_at_zero (cfg : Cfg) (w : WSt) (hr : WReach cfg false w) :
+    (∀ w', wstep cfg false w .waitCall = some w' →
+      (w'.waiters.getLast? = some .released ↔ w.sched.wg = 0)) ∧
+    (∀ k e g0 w', w.waiters[k]? = some (.blocked e g0) → wstep cfg false w (.waitWake k) = some w' →
+      (e < w.epoch ∨ w.sched.wg = 0) ∧
+      (w.sched.gens.length = g0 → w.sched.wg = 0 ∧ w.sched.started = false ∧
+        ∀ g ∈ w.sched.gens, g.watcher = .done ∧ g.loop = false ∧ g.workers = 0 ∧ g.jobs = 0)) := by
+  have hi := winv_reach cfg false w hr
+  refine ⟨?_, ?_⟩
+  · intro w' h
+    simp only [wstep] at h; cases h
+    simp only [List.getLast?_append, List.getLast?_singleton, Option.some_or, Option.some.injEq]
+    by_cases h0 : w.sched.wg = 0 <;> simp [h0]
+  · intro k e g0 w' hk h
+    simp only [wstep, hk] at h
+    split at h <;> simp at h
+    rename_i hc
+    simp only [chanClosed, Bool.or_eq_true, decide_eq_true_eq, Bool.and_eq_true, beq_iff_eq] at hc
+    obtain ⟨_, _, h3⟩ := hi.blocked k e g0 hk
+    have hz : e < w.epoch ∨ w.sched.wg = 0 := by
+      rcases hc with hc | hc
+      · exact Or.inl hc
+      · exact Or.inr hc.2
+    refine ⟨hz, ?_⟩
+    intro hlen
+    have hwg : w.sched.wg = 0 := by
+      rcases hz with hz | hz
+      · have := h3 hlen; omega
+      · exact hz
+    have := (C10_wait_sound cfg w.sched (wreach_sched cfg false w hr)).2 hwg
+    exact ⟨hwg, this.2.1, this.1⟩
+
+/-- Callers of `Wait` — pending, expired or returned, any number of them — are not part of the state that Start, Stop,
+    cancellation or any goroutine of the scheduler reads or writes: a scheduler action is enabled in the layered system
+    iff it is enabled on the scheduler state alone, and along EVERY layered trace the scheduler component is exactly the
+    run of the scheduler model on the trace's scheduler actions (the waiter actions erased). Every theorem above
+    therefore holds unchanged in the presence of waiters. -/
+theorem C10_wait_independent (cfg : Cfg) (w : WSt) :
+    (∀ a, (wstep cfg false w (.sched a)).isSome = (step cfg w.sched a).isSome) ∧
+    (∀ as w', wrun cfg false w as = some w' → run cfg w.sched (schedActs as) = some w'.sched) ∧
+    (∀ a w', wstep cfg false w a = some w' → (∀ x, a ≠ .sched x) → w'.sched = w.sched ∧ w'.epoch = w.epoch) := by
+  refine ⟨?_, fun as w' h => wrun_sched cfg false as w w' h, ?_⟩
+  · intro a
+    simp only [wstep]
+    cases step cfg w.sched a <;> rfl
+  · intro a w' h hne
+    cases a <;> simp only [wstep] at h
+    case sched x => exact absurd rfl (hne x)
+    case waitCall => cases h; exact ⟨rfl, rfl⟩
+    case waitWake k =>
+      split at h
+      · split at h <;> simp at h
+        subst h; exact ⟨rfl, rfl⟩
+      · cases h
+    case waitReturn k =>
+      split at h
+      · cases h; exact ⟨rfl, rfl⟩
+      · cases h
+    case waitExpire k =>
+      split at h
+      · simp at h; subst h; exact ⟨rfl, rfl⟩
+      · cases h
+
+/-- The counter is reusable across runs: the error state of the old WaitGroup is unreachable, and a `done` channel
+    that is closed stays closed whatever happens next — so a caller left over from an earlier run (blocked, or released
+    but not yet returned) is neither broken by a later `Start` nor does it disturb it. -/
+theorem C10_wait_reusable (cfg : Cfg) (w : WSt) (hr : WReach cfg false w) :
+    w.broken = false ∧
+    (∀ e a w', chanClosed w e = true → wstep cfg false w a = some w' → chanClosed w' e = true) ∧
+    (∀ e as w', chanClosed w e = true → wrun cfg false w as = some w' → chanClosed w' e = true) := by
+  obtain ⟨as0, h0⟩ := hr
+  exact ⟨not_broken_run cfg as0 winit w rfl h0, fun e a w' hc h => chanClosed_step cfg false e hc h,
+    fun e as w' hc h => chanClosed_run cfg false e as w w' hc h⟩
+
+/-- Negative control — the hazard of the old implementation (sync.WaitGroup + one helper goroutine per `Wait`),
+    `old := true`: a `Wait` whose context expired leaves its helper blocked in `wg.Wait()`; after `Stop` and the exit of
+    the run the helper is released, and a `Start` issued before it has returned reaches the error state
+    ("WaitGroup is reused before previous Wait has returned"). The same calls on the code as it is (`old := false`,
+    where the expired caller is simply gone) end with a running scheduler and no error. -/
+theorem C10_waitgroup_reuse_hazard :
+    (∃ w, wrun (Cfg.std 0) true winit
+        [.sched .start, .waitCall, .waitExpire 0, .sched .stop, .sched (.watcherWake 0), .sched (.watcherStop 0),
+         .sched (.loopExit 0), .waitWake 0, .sched .start] = some w ∧ w.broken = true) ∧
+    (∃ w, wrun (Cfg.std 0) false winit
+        [.sched .start, .waitCall, .waitExpire 0, .sched .stop, .sched (.watcherWake 0), .sched (.watcherStop 0),
+         .sched (.loopExit 0), .sched .start] = some w ∧ w.broken = false ∧ isStarted (Cfg.std 0) w.sched = true ∧
+      w.waiters = [.expired]) := by
+  constructor
+  · exact ⟨{ sched := { started := true,
+                        gens := [{ cancelled := true, watcher := .done, loop := false, workers := 0, jobs := 0 },
+                                 { cancelled := false, watcher := .waiting, loop := true, workers := 0, jobs := 0 }],
+                        wg := 2 },
+             epoch := 2, waiters := [.released], broken := true }, (by decide), rfl⟩
+  · exact ⟨{ sched := { started := true,
+                        gens := [{ cancelled := true, watcher := .done, loop := false, workers := 0, jobs := 0 },
+                                 { cancelled := false, watcher := .waiting, loop := true, workers := 0, jobs := 0 }],
+                        wg := 2 },
+             epoch := 2, waiters := [.expired], broken := false }, (by decide), rfl, (by decide), rfl⟩
 
 /-! ## the jobs' context -/
 
@@ -299,6 +390,18 @@ example : expect [.start, .stop, .start, .cancel 0, .cancel 1, .start, .watcherW
 example : ∃ s, Reach (Cfg.std 1) s ∧ s.wg = 0 ∧ s.gens.length = 2 :=
   ⟨_, ⟨[.start, .jobSpawn 0, .cancel 0, .start, .stop, .watcherWake 0, .watcherStop 0, .watcherWake 1, .watcherStop 1,
         .loopExit 0, .loopExit 1, .workerExit 0, .workerExit 1, .jobExit 0], rfl⟩, rfl, rfl⟩
+
+/-- `C10_wait_returns_at_zero` is not vacuous: a caller blocked since run 1 is woken after that run has drained -/
+example : ∃ w w', WReach (Cfg.std 0) false w ∧ w.waiters[0]? = some (.blocked 1 1) ∧
+    wstep (Cfg.std 0) false w (.waitWake 0) = some w' ∧ w.sched.gens.length = 1 :=
+  ⟨_, _, ⟨[.sched .start, .waitCall, .sched .stop, .sched (.watcherWake 0), .sched (.watcherStop 0),
+           .sched (.loopExit 0)], rfl⟩, by decide, rfl, by decide⟩
+
+/-- …and a caller of run 1 that is woken only after run 2 has begun (its epoch ended: `e < epoch`, counter not zero) -/
+example : ∃ w w', WReach (Cfg.std 0) false w ∧ w.waiters[0]? = some (.blocked 1 1) ∧
+    wstep (Cfg.std 0) false w (.waitWake 0) = some w' ∧ w.sched.wg = 2 ∧ w.epoch = 2 :=
+  ⟨_, _, ⟨[.sched .start, .waitCall, .sched .stop, .sched (.watcherWake 0), .sched (.watcherStop 0),
+           .sched (.loopExit 0), .sched .start], rfl⟩, by decide, rfl, by decide, by decide⟩
 
 /-- the hypotheses of `C10_cancel_eq_stop` are satisfiable -/
 example : ∃ s sc ss, Reach (Cfg.std 0) s ∧ s.started = true ∧
